@@ -12,9 +12,9 @@
                                 (RuntimeRowMajorMatrixIndexingPolicy(r, c) = mat r c c)
     prod p1 p2 st               FixedSizeIndexingPoliciesCartesianProduct<p1, p2, st>
   `index` follows the case analysis of the C++ `getIndex` overloads (arity of the first / second policy equal to
-  zero), `minSize` follows `getUnderlyingArrayMinimalSize` — with ONE deliberate difference, the row-major
-  matrix policy with a non default stride: the model has the value required by the property,
-  `(n-1)*s + m`; see Props.lean and the correspondence in checks/C17.py.
+  zero), `minSize` follows `getUnderlyingArrayMinimalSize`; for the row-major matrix policy with a non default stride the
+  model has the value required by the property, `(n-1)*s + m` (see Props.lean and the correspondence in
+  checks/C17.py, which reports a library that returns anything else).
 -/
 namespace TfelVerif.C17
 
